@@ -140,6 +140,9 @@ def rule_a_c_d(repo, chk, w):
             if isinstance(inner, ast.Call) and isinstance(inner.func, ast.Call) and call_name(inner.func) == 'handler':
                 closure = src(inner.args[0]) if inner.args else None
                 ename = src(inner.func.args[0]) if inner.func.args else None
+                if inner.func.args and isinstance(inner.func.args[0], ast.Name) and ename != 'event_name':
+                    # (a local that holds the name: `done_name = '%s_done' % event_name`)
+                    ename = ' | '.join([ename] + [src(v) for v in pat.deref(w, inner.func.args[0])])
                 for tg in n.targets:
                     installs[src(tg)] = (closure, ename, n)
     need(len(installs) >= 3, f'C06.a: waitEvent installs {len(installs)} temporary handlers, 3 confirmed by hand')
@@ -277,17 +280,19 @@ def rule_a_c_d(repo, chk, w):
            loc(on_tick, (exact or fire_edges)[0].src.ast), discr='expiry-not-exact')
     for e in fire_edges:
         wrap = [n for n in g.nodes if n.kind == 'stmt' and any(
-            c.args and all('ExceptionWrapper(TimeoutError())' in src(v) for v in pat.deref(on_tick, c.args[0])) for _r, c in pat.method_calls(n.ast, 'registerTask'))]
-        p = Q.escapes(g, [e.dst], lambda n: n in wrap) if e.dst not in wrap else None
+            c.args and _carries_timeout(on_tick, c.args[0]) for _r, c in pat.method_calls(n.ast, 'registerTask'))]
+        # (once the countdown was found expired, an edge that says it is still positive cannot be taken: `if t > 0: … elif t <= 0: …`)
+        expired = lambda x: x in still_running  # noqa: E731
+        p = Q.escapes(g, [e.dst], lambda n: n in wrap, avoid_edge=expired) if e.dst not in wrap else None
         chk.ob('a', on_tick.ref, 'on expiry the waiter is resumed with a wrapped TimeoutError', p is None and bool(wrap), loc(on_tick, e.src.ast),
                discr='timeout:resumed')
         for label, pred in (('done-handler', is_done), ('tick-handler', is_tick)):
             rem = [n for n in g.nodes if n.kind == 'stmt' and _removes(n.ast, pred)]
-            p = Q.escapes(g, [e.dst], lambda n: n in rem) if e.dst not in rem else None
+            p = Q.escapes(g, [e.dst], lambda n: n in rem, avoid_edge=expired) if e.dst not in rem else None
             chk.ob('a', on_tick.ref, f'on expiry the temporary {label} is removed', p is None and bool(rem), loc(on_tick, e.src.ast),
                    path=pat.path_lines(p) if p else None, discr=f'timeout:{label}-removed')
         rem = [n for n in g.nodes if n.kind == 'stmt' and _removes(n.ast, is_ev)]
-        p = Q.escapes(g, [e.dst], lambda n: n in rem, avoid_edge=pat.test_edge(lambda t, pol: pol == 'T' and src(t) == 'state.run')) \
+        p = Q.escapes(g, [e.dst], lambda n: n in rem, avoid_edge=lambda x: expired(x) or pat.test_edge(lambda t, pol: pol == 'T' and src(t) == 'state.run')(x)) \
             if e.dst not in rem else None
         chk.ob('a', on_tick.ref, 'on expiry the temporary handler for the awaited event is removed unless the event was already seen',
                p is None and bool(rem), loc(on_tick, e.src.ast), path=pat.path_lines(p) if p else None, discr='timeout:event-handler-removed')
@@ -353,6 +358,22 @@ def _eval_guard(test, v):
     raise AnalysisError(f'C06.d: cannot evaluate `{src(test)}`')
 
 
+def _carries_timeout(f, e):
+    """The task entry holds a generator of a wrapped TimeoutError (written in place, or bound to a local first)."""
+    vs = list(pat.deref(f, e))
+    if vs and all('ExceptionWrapper(TimeoutError())' in src(v) for v in vs):
+        return True
+    return any(isinstance(v, ast.Tuple) and any(isinstance(x, ast.Name) and (ds := list(pat.deref(f, x))) and
+                                                 all('ExceptionWrapper(TimeoutError())' in src(d_) for d_ in ds) for x in v.elts) for v in vs)
+
+
+def _is_wait_state(f, recv):
+    """*recv* names the wait state of a call()/wait() generator: the first object that generator yields (`x = next(gen)`)."""
+    if recv.endswith('state'):
+        return True
+    return any(isinstance(v, ast.Call) and call_name(v) == 'next' for v in pat.local_feeds(f, recv))
+
+
 def rule_b(chk, t):
     g = t.cfg()
     ev, task, parent = t.params[1], t.params[2], t.params[3]
@@ -364,7 +385,7 @@ def rule_b(chk, t):
             continue
         if any(True for _r, _c in pat.method_calls(n.ast, 'registerTask')):
             cont.add(n)
-        if any(a == 'task' and recv.endswith('state') for recv, a, _v in pat.attr_store(n.ast)):
+        if any(a == 'task' and _is_wait_state(t, recv) for recv, a, _v in pat.attr_store(n.ast)):
             cont.add(n)   # generator handed to the wait state (resumed by _on_done)
         if any(True for _r, _c in pat.method_calls(n.ast, '_eventDone')):
             cont.add(n)
@@ -419,13 +440,13 @@ def rule_b(chk, t):
     thr = [n for n in g.nodes if n.kind == 'stmt' and any((call_name(c) or '').endswith('.throw') for c in calls_in(n.ast))]
     for n in thr:
         regs = [m for m in g.nodes if m.kind == 'stmt' and (any(True for _r, _c in pat.method_calls(m.ast, 'registerTask')) or
-                                                           any(a == 'task' and recv.endswith('state') for recv, a, _v in pat.attr_store(m.ast)))]
+                                                           any(a == 'task' and _is_wait_state(t, recv) for recv, a, _v in pat.attr_store(m.ast)))]
         p = Q.escapes(g, [n], lambda m: m in regs, exits=('exit',), exc=())
         # a generator yielded after the throw (another call()/wait()) is handed to its wait state, not stepped as a value
         rv_ = src(n.ast.targets[0]) if isinstance(n.ast, ast.Assign) else None
         gen_edges = [e for m in g.nodes if m.kind == 'test' and Q.reaches(n, m) for e in m.succ if e.kind == 'T' and rv_ and
                      src(m.ast).replace(' ', '') == f'isinstance({rv_},GeneratorType)' and Q.reachable_without(g, m, start=n, avoid_node=lambda x: rv_ in Q.node_defs(x) and x is not n) is not None]
-        hand = [m for m in g.nodes if m.kind == 'stmt' and any(a == 'task' and recv.endswith('state') and src(v) == rv_ for recv, a, v in pat.attr_store(m.ast))]
+        hand = [m for m in g.nodes if m.kind == 'stmt' and any(a == 'task' and _is_wait_state(t, recv) and src(v) == rv_ for recv, a, v in pat.attr_store(m.ast))]
         okg = bool(gen_edges) and all(e.dst in hand or Q.escapes(g, [e.dst], lambda m: m in hand, exits=('exit',), exc=()) is None for e in gen_edges)
         chk.ob('b', t.ref, 'a generator yielded by the caller after the timeout was thrown into it (another call()/wait()) is handed to its wait state',
                okg, loc(t, n.ast), discr='throw-then-call')
